@@ -16,7 +16,12 @@ RULE = ("pairs (reference, compared) of unrooted trees on the same 4..11 taxa (r
         "middle; each record is judged on its own against the per-tree model and the oracle; PRE-USED trees: the worker indexes the "
         "reference and/or compared trees (ReinitIndexes), then edits them through the public API without re-indexing (Rename swapping two "
         "tips, Node.SetName swap, Reroot at a random node, RotateInternalNodes, UnRoot of a rooted copy), dumps them, and only then "
-        "compares; model and oracle work on the dumped trees (a stale index must not influence the record); rejection cases rename one tip, "
+        "compares; model and oracle work on the dumped trees (a stale index must not influence the record); PRE-HISTORY: a tree indexed "
+        "while it had 1..3 more tips then pruned in memory (RemoveTips), and sequences of edits (RemoveTips / Reroot / Rename / SetName / "
+        "ReinitIndexes / Clone / CollapseShortBranches / UnRoot) on either tree before the comparison; 45% of the bases use arbitrary "
+        "taxon names (case variants of one name, prefixes of one another, t1/t10/t01, numeric names, blanks, quotes, brackets, "
+        "non-ASCII); streams of 120..400 trees with 1..3 rejected trees at random positions run with cpus in {2,8}, records matched "
+        "by id; rejection cases rename one tip, "
         "drop a tip or add a tip in one of the trees; some rooted pairs (outside the quantifier) are run for the correspondence "
         "only; all ordered pairs of the 7 unrooted shapes on 4 taxa and of the 66 on 5 taxa are enumerated in the thorough tier (trees up to 24 taxa there); non-trivial = the two trees differ in at "
         "least one non-trivial split (or must be rejected); distinct = distinct case text")
@@ -207,6 +212,38 @@ def root_on_branch(t, rng, g):
     rng.shuffle(sl)
     return {"name": "", "coms": [], "slots": sl}
 
+def tricky_names(rng, n):
+    """n distinct taxon names exercising the ordering of tip names: case variants of one name, names that are prefixes of
+    one another, trailing digits (t1 / t10 / t01), numeric names, blanks / quotes / brackets, non-ASCII bytes"""
+    pools = [
+        ["Ecoli", "ecoli", "ECOLI", "eColi", "Ecoli2", "ecoli_2", "E", "e", "Ec", "ec", "EC", "eC"],
+        ["t1", "t10", "t01", "t2", "t02", "t20", "t100", "t001", "t", "t1a", "T1", "T10"],
+        ["1", "01", "1.0", "10", "2", "-1", "1e3", "0", "00", "1.", ".1", "+1"],
+        ["a b", "a  b", " a", "a ", "'a'", "a'b", "\"q\"", "a(b)", "a,b", "a:b", "a;b", "[a]"],
+        ["\u00e9", "e\u0301", "\u00c9", "z\u00e9", "\u00e9z", "\u4e2d", "\u4e2d\u6587", "\u00df", "ss", "\u00e6", "ae", "\u03b1"],
+        ["a", "ab", "abc", "abcd", "b", "ba", "A", "AB", "Ab", "aB", "_", "__"],
+    ]
+    names = []
+    order = list(range(len(pools)))
+    rng.shuffle(order)
+    for pi in order:
+        p = list(pools[pi]); rng.shuffle(p)
+        for x in p:
+            if len(names) < n and x not in names:
+                names.append(x)
+    i = 0
+    while len(names) < n:
+        names.append("n%d" % i); i += 1
+    rng.shuffle(names)
+    return names
+
+def relabel(t, mp):
+    t = clone(t)
+    for nd in preorder(t):
+        if nd["name"] in mp:
+            nd["name"] = mp[nd["name"]]
+    return t
+
 NONE = [Sym("none")]
 
 def edit_for(t, rng, kind=None):
@@ -236,18 +273,40 @@ def emit_pre(out, kind, t1, t2s, pre1, pres, rng, ops=("compare", "weighted"), f
             out.append({"sx": sx(c), "meta": {"kind": kind, "op": op, "tips": tips, "ident": ident, "swapped": False,
                                               "ntips": len(leaves(t1)), "stream": len(t2s), "preused": True}})
 
+def emit_par(out, t1, t2s, cpus, rng, op="compare"):
+    """many compared trees, several workers (cpus >= 2); records are matched by id, each judged on its own"""
+    c = {"op": Sym(op), "t1": T(t1), "t2s": [T(b) for b in t2s], "tips": rng.random() < 0.5, "ident": False, "cpus": cpus}
+    out.append({"sx": sx(c), "meta": {"kind": "parallel", "op": op, "tips": c["tips"], "ident": False, "swapped": False,
+                                      "ntips": len(leaves(t1)), "stream": len(t2s), "cpus": cpus}})
+
+def parallel_cases(out, rng, g, ncases, ntrees):
+    for _ in range(ncases):
+        n = rng.randint(4, 8)
+        t = unrooted(g, rng, n, maxdeg=4)
+        pool = [clone(t), contraction(t, rng), unrooted(g, rng, n, maxdeg=4), shuffle_children(reroot_at(t, rng), rng)]
+        t2s = [rng.choice(pool) for _ in range(ntrees)]
+        # 1..3 rejected trees, or (every other case) about half of the stream: the per-tree error must stay per tree
+        nbad = rng.randint(1, 3) if rng.random() < 0.5 else ntrees // 2
+        for _ in range(nbad):
+            t2s[rng.randrange(ntrees)] = rename_tip(rng.choice(pool), rng, "zz")
+        emit_par(out, t, t2s, rng.choice([2, 8]), rng, op=rng.choice(["compare", "compare", "weighted"]))
+
 def unrooted(g, rng, n, maxdeg=5):
     return g.tree(ntips=n, rooted=False, maxdeg=maxdeg, lenmode="all", supmode="mixed", up_random=rng.random() < 0.6)
 
 def gen(rng, tier):
     g = Gen(rng)
-    nbase = {"quick": 22, "thorough": 250, "search": 50}[tier]
+    nbase = {"quick": 20, "thorough": 220, "search": 40}[tier]
     hi = 11 if tier != "thorough" else 24
     out = []
     for _ in range(nbase):
         n = rng.randint(4, hi)
         t = unrooted(g, rng, n, maxdeg=rng.choice([3, 4, 6]))
         u = unrooted(g, rng, n, maxdeg=rng.choice([3, 4, 6]))
+        if rng.random() < 0.45:
+            # taxon names are arbitrary: case variants, prefixes, trailing digits, numeric, blanks, non-ASCII
+            mp = dict(zip(["t%d" % i for i in range(n)], tricky_names(rng, n)))
+            t = relabel(t, mp); u = relabel(u, mp)
         fl2 = [(rng.random() < 0.5, rng.random() < 0.3)]
         emit(out, "independent", t, u, rng, flags=fl2 + [(False, False)])
         emit(out, "identical", t, clone(t), rng, ops=("compare", "weighted"), both_orders=False, flags=[(False, False), (True, True)])
@@ -275,6 +334,22 @@ def gen(rng, tier):
         emit_pre(out, "pre-ref", t, [clone(t), c1], edit_for(t, rng), [NONE, edit_for(c1, rng)], rng, flags=flp)
         emit_pre(out, "pre-stream", t, [clone(t), clone(t), c1, u, clone(t)], NONE,
                  [NONE, edit_for(t, rng, "rename"), edit_for(c1, rng, "reroot"), edit_for(u, rng), edit_for(t, rng, "rotate")], rng, flags=flp)
+        # pre-history: a tree indexed while it had MORE tips, pruned in memory, then compared; edit sequences
+        extra = ["zx%d" % i for i in range(rng.randint(1, 3))]
+        big = t
+        for x in extra:
+            big = add_tip(big, rng, g, x)
+        prune = [Sym("removetips")] + extra
+        emit_pre(out, "pre-prune", t, [big], NONE, [prune], rng, ops=("compare", "weighted", "common"), flags=flp)
+        emit_pre(out, "pre-prune-ref", big, [clone(t), c1], prune, [NONE, NONE], rng, flags=flp)
+        bigu = u
+        for x in extra:
+            bigu = add_tip(bigu, rng, g, x)
+        seq1 = [Sym("seq"), prune, edit_for(t, rng, "reroot"), edit_for(t, rng, "rename")]
+        seq2 = [Sym("seq"), edit_for(u, rng, "reroot"), [Sym("reinit")], edit_for(u, rng, "setname"), [Sym("clone")]]
+        seq3 = [Sym("seq"), [Sym("clone")], edit_for(t, rng, "rename"), [Sym("collapse"), Fraction(rng.choice([1, 8, 32]), 64)]]
+        emit_pre(out, "pre-seq", t, [big, clone(u), clone(t), bigu], edit_for(t, rng, "rotate"),
+                 [seq1, seq2, seq3, [Sym("seq"), [Sym("removetips")] + extra, [Sym("unroot")]]], rng, flags=flp)
         rt2 = root_on_branch(t, rng, g)
         emit_pre(out, "pre-unroot", t, [rt2], NONE, [[Sym("unroot")]], rng, ops=("compare", "weighted", "common"), flags=flp)
         # star tree against anything
@@ -294,6 +369,8 @@ def gen(rng, tier):
             rt = g.tree(ntips=n, rooted=True, maxdeg=4, lenmode="all", supmode="mixed", up_random=True)
             emit(out, "rooted", rt, t, rng, flags=[(False, False), (True, False)])
             emit(out, "rooted", rt, clone(rt), rng, ops=("compare", "weighted"), both_orders=False, flags=[(False, False)])
+    # several workers with rejected trees at random positions (the per-tree error must stay per tree)
+    parallel_cases(out, rng, g, {"quick": 6, "thorough": 60, "search": 40}[tier], {"quick": 120, "thorough": 300, "search": 400}[tier])
     # minimal witnesses of the design notes, always present
     names = ["a", "b", "c", "d", "e"]
     ref = from_shape(g, [["a", "b"], "c", "d", "e"], rng)            # ((a,b),c,d,e)
